@@ -90,7 +90,7 @@ def campaign(c):
             key = ('tls::ciphers', len(ids))
         elif k in (8, 9):   # sni / certificates
             fn, kind, fld = ('tls::sni', 'sni', 'names') if k == 8 else ('tls::certificates', 'certs', 'certs')
-            items = [r.bytes(r.choice([0, 1, 10, 255, 256, 1000])) for _ in range(r.below(4))]
+            items = [r.choice([r.bytes(r.choice([0, 1, 10, 255, 256, 1000])), b'www.example.com.', b'.', b'a.', b'..', b'x' * r.below(5) + b'.']) for _ in range(r.below(4))]
             res, req = call_both(c, [[fn] + ['-=' + s(x) for x in items]])
             b = val_bytes(res[0]); rep = dict(req=req[:2000])
             if b is not None:
